@@ -184,7 +184,16 @@ def gen_driver(rng, ids):
                     driver.append({'op': 'settracked', 'i': 3, 'id': ids('d'),
                                    'v': rng.choice([0, 1, 1.5, 'nan', 'nan'])})
             elif roll < 0.8:
-                if rng.random() < 0.5:
+                if rng.random() < 0.3:
+                    # ... through any of the operators of a tracked value
+                    opr = rng.choice(['add', 'sub', 'mul', 'floordiv', 'mod', 'pow', 'lshift',
+                                      'rshift', 'and', 'or', 'xor', 'pow3', 'pow3'])
+                    arg = {'pow': rng.choice([0, 1, 2]), 'pow3': [rng.choice([1, 2, 3]), 4],
+                           'floordiv': rng.choice([1, 2]), 'mod': rng.choice([2, 3]),
+                           'lshift': 1, 'rshift': 1}.get(opr, rng.randint(0, 3))
+                    driver.append({'op': 'settracked', 'i': rng.randrange(2), 'opr': opr,
+                                   'arg': arg, 'id': ids('d')})
+                elif rng.random() < 0.5:
                     driver.append({'op': 'settracked', 'i': rng.randrange(2),
                                    'add': rng.choice([-1, 1]), 'id': ids('d')})
                 else:
